@@ -102,6 +102,51 @@ CLAIMED["C16"] = dict(
   note="Structure-aware mutations of the described formats only: SQL text, purely random bytes, the pgsql startup packet and the document converters are not covered.",
   technique="TLA+ format descriptors, exhaustive mutation enumeration by TLC, replay on the real decoders")
 
+CLAIMED["C06"] = dict(
+  category="model_checking",
+  text="spec/KVLin.tla is the specification of atomicity for the pkg/database API (Set, multi-key Set, ExecAll, Delete, SetReference, ZAdd with preconditions; Get incl. AtTx/AtRevision, "
+       "GetAll, Scan, ZScan, History, Count): every call is Call / internal Lin (applied or evaluated atomically on the abstract versioned map, preconditions on the state "
+       "immediately before) / Return. MCKVLin.tla is checked exhaustively (3 clients, 2 keys). 3-6 goroutines call the real database concurrently over <= 8 keys while indexing, "
+       "FlushIndex and CompactIndex run; Call/Return events with full results form windows of <= 60 ops cut at quiescent points; spec/TraceKVLin.tla lets TLC place the unlogged "
+       "linearization points (depth-first, high-water-mark acceptance; tx ids of writes pin the write order): a window is accepted iff a linearization exists. The abstract state "
+       "at every cut comes from TLC, never from the database.",
+  design_ref="DESIGN.md §4 C06, docs/C06.md",
+  note="No forced schedules (free-running goroutines); windows bound the concurrency depth; porcupine deliberately not used. Rejected windows are re-validated alone and classified by TLC.",
+  technique="TLC trace validation with silent linearization steps (existence of a linearization per window) + exhaustive MC of the atomic spec")
+CLAIMED["C09"] = dict(
+  category="exploration",
+  text="spec/Corruption.tla lists the fields of the tx record, the commit-log entry and the value bytes, which check authenticates which field on which read path, and a small "
+       "Alter;Read machine; TLC computes the full (field x alteration class x read path) matrix (detected / invisible / uncovered candidates) and checks that with all checks in "
+       "place every alteration is detected or invisible. harness/cmd/c09 builds real stores per configuration class (plain / compressed / embedded values, several chunks, 2 value "
+       "logs, header v0/v1), maps every byte of every committed record and value range to its field with an independent parser, and flips single bits (all field classes; "
+       "stratified under a time box in the quick tier) plus multi-bit/pair alterations in copies, running 9 read paths (Open, ReadTx, ReadTxHeader, ReadTxEntry, ReadValue, ExportTx, "
+       "TxReader, proofs, index rebuild) under recover + deadline: accept = error or identical content.",
+  design_ref="DESIGN.md §4 C09, docs/C09.md",
+  note="Exhaustive single-bit coverage only in the thorough tier; index and hash-tree files are outside the property's scope.",
+  technique="TLA+ field/check matrix evaluated by TLC + bit-flip replay on real stores")
+CLAIMED["C10"] = dict(
+  category="model_checking",
+  text="spec/TBTree.tla: the index as a map key -> versions with a logical time, frozen snapshots, readers as call histories, flush / sync / compaction dumps / reopen; invariants "
+       "SnapshotFrozen, SnapshotFresh, FlushKeeps, ReopenKeeps, CompactEqualsStateAtReportedTs, RejectKeeps. TLC checks exhaustive small configurations (writer ops, snapshots + "
+       "reader, bulks) and generates behaviours (simulation + directed scripts + counterexamples of the code-as-transcribed variants); harness/cmd/c10 replays every behaviour on "
+       "the real on-disk tbtree under 6 configuration classes (minimal node size forcing splits, cache 1.., flush/sync thresholds 1.., cleanup 0/50/100, tiny files) comparing "
+       "every read and, after every step, the full projection (all keys, all versions); snapshots are re-read after later inserts/flushes/compactions, with concurrent reader "
+       "goroutines on snapshots.",
+  design_ref="DESIGN.md §4 C10, docs/C10.md",
+  note="The copy-on-write node structure is deliberately not modelled (it is the thing under test); exhaustive only for <= 5-6 ops over 3 keys.",
+  technique="TLC model checking of the abstract multi-version map + replay of TLC behaviours on the real tbtree")
+CLAIMED["C18"] = dict(
+  category="model_checking",
+  text="spec/Auth.tla: users with a permission per database, active flag, sessions and tokens (valid, expired, user deactivated, permission changed, logged out, several logins), "
+       "database selection, and the policy of the property as invariants over every Call; TLC explores the session histories exhaustively and prints the full matrix "
+       "(11.6k rows) used as oracle; a transcription of the Go gate is checked against the policy (its counterexamples are replayed on the real server). harness/cmd/c18 runs an "
+       "in-process ImmuServer with all three gRPC services and the real interceptor chain; the RPC list comes from the service descriptors (93 RPCs, a missing request builder is a "
+       "fault); the effect of every call is OBSERVED (tx ids, settings, user list, returned data) for every RPC x role x database selection x session state (~10k cells) and all "
+       "calls are validated as a trace by spec/TraceAuth.tla.",
+  design_ref="DESIGN.md §4 C18, docs/C18.md",
+  note="Token expiry (minutes granularity) is not driven; some RPCs without observable effect are judged by status only.",
+  technique="TLC exhaustive policy/state-machine check + full RPC matrix on the real server + TLC trace validation")
+
 REASONS = {}
 
 
